@@ -128,6 +128,16 @@ def make_coords(srid, x, y, z):
     return {'ENU': ENUCoords, 'GEO': GeoCoords, 'ECEF': ECEFCoords}[srid](x, y, z)
 
 
+def kind_conv(vk):
+    import numpy as np
+    return {'npfloat': np.float64, 'int': int, 'npint': np.int64, 'npfloat32': np.float32}[vk]
+
+
+def _py(v):
+    """expected value as a plain Python number (the written value may be a numpy scalar)"""
+    return v.item() if hasattr(v, 'item') and not core.is_sym(v) else v
+
+
 class C13(Check):
     id = 'C13'
     title = 'Tracks and networks written to file are read back unchanged'
@@ -179,7 +189,16 @@ class C13(Check):
                     js.append(dict(kind='gpx', srid=srid, n=2, many=many, onefile=one))
             js.append(dict(kind='gpx', srid=srid, n=70 if q else 300, long=True))
         for one in (True, False):
-            js.append(dict(kind='csv', srid='GEO', sep='comma', lay=[0, 1, 2, 3], n=1, after_gpx=one))    # a history: GPX export (one file / one file per track), then CSV
+            js.append(dict(kind='csv', srid='GEO', sep='comma', lay=[0, 1, 2, 3], n=1, after_gpx=one))
+        # leftover-state probe: a GPX export refused with an exception (wrong extension / missing directory), then a CSV round trip in the same process
+        for why in ('ext', 'dir'):
+            for srid in ('ENU', 'GEO'):
+                js.append(dict(kind='csv', srid=srid, sep='comma', lay=[0, 1, 2, 3], n=1, after_refused=why))
+        # value-kind probes: coordinates held as numpy scalars / Python ints (WKT text, network geometries)
+        for vk in ('npfloat', 'int', 'npint'):
+            for srid in ('ENU', 'GEO'):
+                js.append(dict(kind='wkt', srid=srid, n=2, vk=vk))
+            js.append(dict(kind='net', sep='comma', n=0, vk=vk))    # a history: GPX export (one file / one file per track), then CSV
         return js
 
     def patches(self, job):
@@ -201,6 +220,12 @@ class C13(Check):
         g = (lambda nm, lo, hi: eng.real(nm, lo, hi)) if sym else (lambda nm, lo, hi: float(inp[nm]))
         gi = (lambda nm, lo, hi: eng.int(nm, lo, hi)) if sym else (lambda nm, lo, hi: int(inp[nm]))
         obs = []
+        if job.get('vk'):
+            conv = kind_conv(job['vk'])
+            isint = job['vk'] in ('int', 'npint')
+            for i in range(n):
+                obs.append(((conv(12 + i if isint else 12.5 + i), conv(3 - 7 * i if isint else 3.25 - 7.5 * i), conv(1)), (2001, 2, 3 + i, 4, 5, 6)))
+            return obs
         for i in range(n):
             if job.get('long') and i not in (1, n - 2):
                 geo = job['srid'] == 'GEO'
@@ -221,6 +246,20 @@ class C13(Check):
         e, n, u, t = job['lay']
         sep = SEPS[job['sep']]
         tr = Track([Obs(make_coords(job['srid'], *xyz), ObsTime(*ts)) for xyz, ts in obs])
+        if 'after_refused' in job:
+            other = Track([Obs(make_coords(job['srid'], 1.0, 2.0, 3.0), ObsTime(2001, 2, 3, 4, 5, 6))], track_id=7)
+            try:
+                if job['after_refused'] == 'ext':
+                    tw.TrackWriter.writeToGpx(other, os.path.join(SCRATCH, 'verif-c13-refused.txt'))
+                else:
+                    tw.TrackWriter.writeToGpx(other, os.path.join(SCRATCH, 'verif-c13-no-such-directory'), oneFile=False)
+            except Exception:
+                pass          # the export is refused (documented IOPathError); its only legitimate effect is the exception
+            finally:
+                try:
+                    os.remove(os.path.join(SCRATCH, 'verif-c13-refused.txt'))
+                except OSError:
+                    pass
         if 'after_gpx' in job:
             import shutil
             d = tempfile.mkdtemp(prefix='verif-c13-', dir=SCRATCH)
@@ -250,6 +289,11 @@ class C13(Check):
     def _inputs_other(self, eng, inp, job):
         sym = inp is None
         g = (lambda nm, lo, hi: eng.real(nm, lo, hi)) if sym else (lambda nm, lo, hi: float(inp[nm]))
+        if job['kind'] == 'net' and job.get('vk'):
+            conv = kind_conv(job['vk'])
+            isint = job['vk'] in ('int', 'npint')
+            base = {'a': (0, 0), 'b': (120, 35), 'c': (40, -260), 'm': (77, -101)}
+            return {v: (conv(x if isint else x + 0.125), conv(y if isint else y - 0.375)) for v, (x, y) in base.items()}
         if job['kind'] == 'net':
             return {v: (g('x_' + v, -999000, 999000), g('y_' + v, -999000, 999000)) for v in ('a', 'b', 'c', 'm')}
         return None
@@ -268,8 +312,8 @@ class C13(Check):
                 return comps, bad
             for i, (xyz, ts) in enumerate(obs):
                 o = back.getObs(i)
-                comps.append((o.position.getX(), xyz[0], None, 'WKT: the first planimetric coordinate is parsed back unchanged'))
-                comps.append((o.position.getY(), xyz[1], None, 'WKT: the second planimetric coordinate is parsed back unchanged'))
+                comps.append((o.position.getX(), _py(xyz[0]), None, 'WKT: the first planimetric coordinate is parsed back unchanged'))
+                comps.append((o.position.getY(), _py(xyz[1]), None, 'WKT: the second planimetric coordinate is parsed back unchanged'))
             return comps, bad
         if kind == 'gpx' and job.get('many'):
             # a collection of several tracks; the symbolic observations are those of the track at index 1
@@ -388,8 +432,8 @@ class C13(Check):
                     bad.append('an edge geometry read back does not have the same number of vertices')
                     return comps, bad
                 for k, v in enumerate(verts):
-                    comps.append((e.geom.getObs(k).position.getX(), V[v][0], None, 'network: an edge vertex x is read back unchanged'))
-                    comps.append((e.geom.getObs(k).position.getY(), V[v][1], None, 'network: an edge vertex y is read back unchanged'))
+                    comps.append((e.geom.getObs(k).position.getX(), _py(V[v][0]), None, 'network: an edge vertex x is read back unchanged'))
+                    comps.append((e.geom.getObs(k).position.getY(), _py(V[v][1]), None, 'network: an edge vertex y is read back unchanged'))
             return comps, bad
         raise ValueError(kind)
 
@@ -407,11 +451,11 @@ class C13(Check):
         TOK = Tokens()
         from tracklib.core import ObsTime as _OT
         fmts = (_OT.getPrintFormat(), _OT.getReadFormat())
-        if kind == 'net':
+        if kind == 'net' and not job.get('vk'):
             # values that stress the text form (the concolic fallback tries them when a path cannot be followed symbolically)
             xa, ya = obs['a'][0].z, obs['m'][1].z
             ctx.hints = [xa == z3.Q(1, 32768), ya == z3.Q(-1, 65536), z3.And(xa == z3.Q(1, 32768), ya == z3.Q(-3, 65536))]
-        if kind == 'wkt':
+        if kind == 'wkt' and not job.get('vk'):
             ctx.hints = [zreal(obs[0][0][0]) == z3.Q(1, 32768), zreal(obs[-1][0][1]) == z3.Q(-1, 65536)]
         saved = (core.SReal.__format__, core.SReal.__str__, core.SInt.__format__, core.SInt.__str__)
         core.SReal.__format__, core.SReal.__str__ = _fmt_real, _str_real
